@@ -292,7 +292,10 @@ class _ManifoldDynamicsService(_DynamicsServiceBase):
             )
             return self._manifold_result
 
-        return self.get_or_create(cache_key, _factory)
+        # On a cache hit the factory does not run: the result of *this* request must still
+        # become the current one (trajectories, manifold_result read it).
+        self._manifold_result = self.get_or_create(cache_key, _factory)
+        return self._manifold_result
 
     def _run_compute(
         self,
